@@ -134,6 +134,10 @@ pub struct World {
     cur_ext: Option<Vec<[u32; 4]>>,
 }
 
+/// Set when a fatal receive fault has just been injected (the snapshot driver aims a burst of clears at the moment the
+/// tracer publishes its error).
+pub static FATAL_FIRED: std::sync::atomic::AtomicBool = std::sync::atomic::AtomicBool::new(false);
+
 thread_local! {
     pub static WORLD: RefCell<Option<World>> = const { RefCell::new(None) };
 }
@@ -230,6 +234,9 @@ impl World {
         if let Some(kind) = &hit {
             self.counters.faults_fired += 1;
             self.fired.push(json!({"op":op,"kind":kind,"k":-1,"r":r}));
+            if kind != "wouldblock" {
+                FATAL_FIRED.store(true, std::sync::atomic::Ordering::SeqCst);
+            }
         }
         hit
     }
